@@ -41,6 +41,18 @@ def _const_with_classes(v, depth=0):
 PRIM = (Ty.TNone, Ty.TBool, Ty.TInt, Ty.TStr, Ty.TBytes)
 
 
+def dict_view(sv):
+    """an instance of a dict subclass is used as a mapping stored at the object's own address"""
+    ty = sv.ty
+    if isinstance(ty, Ty.TInst):
+        try:
+            if issubclass(front.cls_obj(ty.cls), dict):
+                return SV(sv.term, Ty.TDict(Ty.ANY, Ty.ANY), sv.py, sv.has_py)
+        except Exception:
+            pass
+    return sv
+
+
 def is_prim(ty):
     if isinstance(ty, Ty.TOpt):
         return is_prim(ty.t)
@@ -774,6 +786,7 @@ class ExecExpr(ExecCore):
 
     def py_contains(self, st, cont, x, node):
         B = lambda z: SV(VBool(z), Ty.BOOL)
+        cont = dict_view(cont)
         ty = cont.ty
         if isinstance(ty, Ty.TOpt):
             nn, isn = self.fork(st, Not(is_none(cont.term)), None)
@@ -875,6 +888,7 @@ class ExecExpr(ExecCore):
         return z3.If(i < 0, 0, z3.If(i > ln, ln, i))
 
     def get_item(self, st, base, key, node):
+        base = dict_view(base)
         ty = base.ty
         if isinstance(ty, Ty.TOpt):
             nn, isn = self.fork(st, Not(is_none(base.term)), None)
@@ -945,6 +959,7 @@ class ExecExpr(ExecCore):
         raise Unsupported('subscript on %r (line %d)' % (ty, node.lineno))
 
     def set_item(self, st, base, key, v):
+        base = dict_view(base)
         ty = Ty.strip_opt(base.ty)
         if isinstance(base.ty, Ty.TOpt):
             nn, isn = self.fork(st, Not(is_none(base.term)), None)
@@ -984,6 +999,7 @@ class ExecExpr(ExecCore):
         raise Unsupported('item store on %r' % (base.ty,))
 
     def del_item(self, st, base, key):
+        base = dict_view(base)
         ty = Ty.strip_opt(base.ty)
         if isinstance(ty, Ty.TDict) and base.has_py and isinstance(base.py, dict) and key.has_py and \
                 isinstance(key.py, front.CONST_TYPES):
